@@ -1100,7 +1100,10 @@ class TorchBackendProvider(BackendProvider):
             method = methods.get(op)
             if method is None:
                 return None
-            return f'({arg_src}).{method}'
+            # a 0-d tensor is an atom: cumsum(0) would turn it into a one-element list where
+            # Scan-Over returns the atom itself; the guard raises for it (len() of a 0-d tensor)
+            # and for an empty list, and the interpreter answers
+            return f'_kg_nonempty({arg_src}).{method}'
 
         return None
 
